@@ -243,7 +243,12 @@ func (i *IRCServer) Unmarshal(data []byte) (uint64, error) {
 		if s.Server {
 			i.serverSessions = append(i.serverSessions, newSession.Id.Id)
 		}
-		i.nicks[NickToLower(newSession.Nick)] = newSession
+		// A session which did not send NICK yet owns no nickname: indexing it
+		// under the empty nickname would make a restored node answer e.g.
+		// “WHOIS :” differently from a node which applied the log.
+		if newSession.Nick != "" {
+			i.nicks[NickToLower(newSession.Nick)] = newSession
+		}
 	}
 	for _, c := range snapshot.Channels {
 		nicks := make(map[lcNick]*[maxChanMemberStatus]bool, len(c.Nicks))
